@@ -131,6 +131,23 @@ func runC07(r *Run, rng *Rng, thorough bool) {
 					r.Fail("new-claims-reports", fmt.Sprintf("NewClaims(%q).GetProfile() = %q, %v", n, res.profile, res.profErr))
 				}
 			}
+			// documents / items that are not a JSON object / CBOR map at all
+			for _, j := range []*JTree{jN(), jA(), jI(1), jS("x"), {Kind: jBool, B: true}, jO()} {
+				text := []byte(j.Text())
+				jres := dispatch(func() (psa.IClaims, error) { return psa.DecodeClaimsFromJSON(append([]byte{}, text...)) })
+				r.Case("json/non-object", false, fmt.Sprintf("dispatch-json reg=%s %s", regp, j.Proto()), jres.String())
+				if j.Kind != jObj && jres.ok {
+					r.Fail("non-object-accepted", "DecodeClaimsFromJSON accepts a document that is not an object: "+j.Text())
+				}
+			}
+			for _, n := range []*Node{nNull(), nUndef(), nArr(), nUint(1), nTstr("x"), nSimple(21), nTag(55799, nMap()), nMap()} {
+				buf := n.Bytes()
+				cres := dispatch(func() (psa.IClaims, error) { return psa.DecodeClaimsFromCBOR(append([]byte{}, buf...)) })
+				r.Case("cbor/non-map", false, fmt.Sprintf("dispatch-cbor reg=%s %s", regp, hx(buf)), cres.String())
+				if n.Kind != kMap && cres.ok {
+					r.Fail("non-map-accepted", "DecodeClaimsFromCBOR accepts an item that is not a map: "+n.String())
+				}
+			}
 			// tokens: a valid base of each profile, the profile claim varied
 			for p := 1; p <= 2; p++ {
 				for rep := 0; rep < 3; rep++ {
